@@ -24,7 +24,7 @@ import (
 type cfgSpec struct {
 	same    bool    // "=": load the previous config's bytes again, unforced (no reload happens)
 	servers [][]int // address indices per HTTP server
-	fail    bool    // probe app a fails in Start (only with napps >= 1): the reload is rejected
+	fail    bool    // "!": the config's admin.config.load module cannot be provisioned: every app starts, then the load is rejected
 }
 
 func (c cfgSpec) has(a int) bool {
@@ -97,7 +97,7 @@ func (s snapshot) of(a int) string {
 }
 
 type event struct {
-	kind  byte   // L R D (main markers)  P S E T C (callbacks)  B X (bind / close)  W J (swap / rejected)  A F (in-flight accepted / finished)
+	kind  byte   // L R D (main markers)  P S E T C (callbacks)  B X (bind / close)  W J Z (swap / rejected / bind failed)  A F (in-flight accepted / finished)
 	gen   int    // generation (= index of the config in the sequence) the event belongs to; load index for L R D W J
 	mod   string // module (a b h0 w0 e started stopping), address name for B/X, token id for A/F, result for R
 	addr  int    // B X A
@@ -114,7 +114,7 @@ func (ev *event) probed() bool { return ev.ans[0] != "" }
 func (ev *event) String() string {
 	head := fmt.Sprintf("%c.%d", ev.kind, ev.gen)
 	switch ev.kind {
-	case 'W', 'J':
+	case 'W', 'J', 'Z':
 		return head
 	case 'L', 'D':
 		return head + ":" + ev.snap.String() + ":" + strings.Join(ev.ans[:], "")
@@ -152,13 +152,16 @@ type runner struct {
 	opened map[int]int
 	closed map[int]int
 
-	hi, lo  atomic.Int64 // generations that may legitimately answer right now: lo..hi
-	loading int          // index of the load in progress
-	curGen  int          // generation of the running config (-1: none)
-	swapped bool
-	firstP  map[int]bool
-	linger  [nUnix]bool // a dropped unix socket was seen accepting without answering; not probed again until rebound
-	results []string    // per load: ok err same
+	hi, lo    atomic.Int64 // generations that may legitimately answer right now: lo..hi
+	loading   int          // index of the load in progress
+	curGen    int          // generation of the running config (-1: none)
+	swapped   bool
+	firstP    map[int]bool
+	linger    [nUnix]bool // a dropped unix socket was seen accepting without answering; not probed again until rebound
+	results   []string    // per load: ok err same stale
+	poisoned  bool        // a config that should have been accepted was rejected; the scenario stops there
+	cut       int         // number of events that belong to the scenario proper
+	listeners []*probeListener
 
 	tokMu  sync.Mutex
 	tokens map[string]*token
@@ -264,7 +267,7 @@ func (r *runner) callback(kind byte, gen int, mod string) error {
 		r.releaseAt('p')
 	case kind == 'E' && mod == "started":
 		r.releaseAt('s')
-	case kind == 'E' && mod == "stopping":
+	case kind == 'E' && mod == "stopping" && gen == r.curGen:
 		r.releaseAt('t')
 	}
 	return nil
@@ -292,7 +295,11 @@ func (r *runner) bound(gen int, ln net.Listener) net.Listener {
 	ev.hold = r.holdersLocked()
 	r.events = append(r.events, ev)
 	r.evMu.Unlock()
-	return &probeListener{Listener: ln, r: r, gen: gen, addr: a}
+	pl := &probeListener{Listener: ln, r: r, gen: gen, addr: a}
+	r.evMu.Lock()
+	r.listeners = append(r.listeners, pl)
+	r.evMu.Unlock()
+	return pl
 }
 
 // closing is entered from http.Server.Shutdown (asynchronously to the goroutine that runs
@@ -311,9 +318,6 @@ func (r *runner) closing(l *probeListener) error {
 	r.events = append(r.events, ev)
 	return err
 }
-
-// rejecting is entered from the Start of the probe app that is about to fail.
-func (r *runner) rejecting(gen int) { r.mark('J', gen) }
 
 // ---- in-flight requests
 
@@ -434,17 +438,17 @@ func (r *runner) configJSON(gen int, c cfgSpec) []byte {
 		}}},
 	}
 	if r.sc.napps >= 1 {
-		a := map[string]any{"gen": gen}
-		if c.fail {
-			a["fail"] = "start"
-		}
-		apps["verif_c02_a"] = a
+		apps["verif_c02_a"] = map[string]any{"gen": gen}
 	}
 	if r.sc.napps >= 2 {
 		apps["verif_c02_b"] = map[string]any{"gen": gen}
 	}
+	adminCfg := map[string]any{"persist": false}
+	if c.fail {
+		adminCfg["load"] = map[string]any{"module": "verif_c02", "gen": gen}
+	}
 	cfg := map[string]any{
-		"admin":   map[string]any{"disabled": true, "config": map[string]any{"persist": false}},
+		"admin":   map[string]any{"disabled": true, "config": adminCfg},
 		"logging": map[string]any{"logs": map[string]any{"default": map[string]any{"writer": map[string]any{"output": "discard"}}}},
 		"storage": map[string]any{"module": "file_system", "root": r.env.dir + "/data"},
 		"apps":    apps,
